@@ -96,7 +96,7 @@ func c02inlinable(p *core.Prog, g *ssa.Function, depth int) bool {
 	ok := true
 	core.Instrs(g, func(ins ssa.Instruction) {
 		switch x := ins.(type) {
-		case *ssa.BinOp, *ssa.Convert, *ssa.ChangeType, *ssa.Phi, *ssa.If, *ssa.Jump, *ssa.Return, *ssa.DebugRef, *ssa.Extract:
+		case *ssa.BinOp, *ssa.Convert, *ssa.MultiConvert, *ssa.ChangeType, *ssa.Phi, *ssa.If, *ssa.Jump, *ssa.Return, *ssa.DebugRef, *ssa.Extract:
 		case *ssa.UnOp:
 			if x.Op == token.MUL {
 				switch x.X.(type) {
@@ -517,6 +517,27 @@ func (e *c02eval) eval(v ssa.Value) core.AV {
 			r.Src, r.Why = false, a.Why
 		}
 		return r
+	case *ssa.MultiConvert:
+		// N(val) between type parameters of a generic helper: the conversion between the types the call instantiates
+		a := e.eval(x.X)
+		if a.Bool {
+			return unknown("conversion of a bool")
+		}
+		from, to := x.X.Type(), e.concrete(x.Type(), x.Parent())
+		if _, isTP := from.(*types.TypeParam); isTP {
+			from = e.deref(x.X).Type()
+		}
+		if _, ok := core.TypeRange(from); !ok {
+			return unknown("conversion from non-numeric")
+		}
+		if _, ok := core.TypeRange(to); !ok {
+			return unknown("conversion to a type that is not known here")
+		}
+		r, _ := core.ConvertAV(a, from, to)
+		if !a.Src && r.Why == "" {
+			r.Src, r.Why = false, a.Why
+		}
+		return r
 	case *ssa.ChangeType:
 		return e.eval(x.X)
 	case *ssa.Call:
@@ -552,6 +573,33 @@ func (e *c02eval) eval(v ssa.Value) core.AV {
 		}
 	}
 	return unknown(fmt.Sprintf("unrecognised expression %T", v))
+}
+
+// concrete: a type parameter of the inlined generic helper fn, read as the type argument of the call that is inlined.
+func (e *c02eval) concrete(t types.Type, fn *ssa.Function) types.Type {
+	tp, ok := t.(*types.TypeParam)
+	if !ok {
+		return t
+	}
+	fr := e.byFn[fn]
+	if fr == nil {
+		return t
+	}
+	inst := fr.call.Call.StaticCallee()
+	if inst == nil {
+		return t
+	}
+	org := inst.Origin()
+	if org == nil {
+		return t
+	}
+	tps, tas := org.TypeParams(), inst.TypeArgs()
+	for i := 0; i < tps.Len() && i < len(tas); i++ {
+		if tps.At(i) == tp {
+			return tas[i]
+		}
+	}
+	return t
 }
 
 // refine applies "x op k" (already with polarity) to x.
